@@ -1,1 +1,4 @@
 import ClvmProofs.Props.C21
+import ClvmProofs.Props.C12
+import ClvmProofs.Props.C13
+import ClvmProofs.Props.C14
